@@ -18,6 +18,8 @@ class FakeTransport:
         self.disconnecting = False
         self.disconnected = False
         self.lose_calls = 0
+        self.linger = False      # True: loseConnection() only REQUESTS the close; data keeps arriving until close()
+        self.on_write = None     # hook called with the bytes of each write (a peer that answers synchronously)
 
     # -- ITransport
     def write(self, data):
@@ -25,6 +27,8 @@ class FakeTransport:
         if self.disconnected:
             return
         self.written.append(('data', bytes(data)))
+        if self.on_write is not None:
+            self.on_write(bytes(data))
 
     def writeSequence(self, seq):
         for d in seq:
@@ -113,7 +117,7 @@ def deliver(proto, data):
     except Exception as e:      # the reactor logs it and drops the connection
         close(proto, Failure(e))
         return e
-    if t.disconnecting and not t.disconnected:
+    if t.disconnecting and not t.disconnected and not getattr(t, 'linger', False):
         close(proto)
     return None
 
@@ -332,6 +336,14 @@ class BusRig:
             if r is None or r['type'] != 2 or not r['body'] or not isinstance(r['body'][0], str):
                 raise RigFailure('Hello was answered with %r' % (r,))
             c.name = r['body'][0]
+            c.inbox.remove(r)
+        else:
+            # a peer that never says Hello: the bus serves its calls to the bus driver all the same and gives it a
+            # unique name with its first message; the peer reads that name off the destination of the first reply
+            r = c.call_bus('GetNameOwner', 's', ['org.verif.nobody-owns-this'])
+            if r is None or r['type'] not in (2, 3) or not isinstance(r['fields'].get(6), str):
+                raise RigFailure('GetNameOwner from a peer that skipped Hello was answered with %r' % (r,))
+            c.name = r['fields'][6]
             c.inbox.remove(r)
         return c
 
